@@ -142,3 +142,27 @@ func Decode(data string, multiLine, invalidIndents bool) (r DecodeResult) {
 	r.Doc, r.Err = dec.Decode()
 	return
 }
+
+// Eq is Node.Equals in either direction.
+func Eq(a, b gedcom.Node) bool { return a.Equals(b) || b.Equals(a) }
+
+// PathCovered: node x is represented among candidates by an Equals node whose
+// children recursively cover x's children.
+func PathCovered(x gedcom.Node, candidates gedcom.Nodes) bool {
+	for _, c := range candidates {
+		if !Eq(c, x) {
+			continue
+		}
+		ok := true
+		for _, xc := range x.Nodes() {
+			if !PathCovered(xc, c.Nodes()) {
+				ok = false
+				break
+			}
+		}
+		if ok {
+			return true
+		}
+	}
+	return false
+}
